@@ -250,3 +250,52 @@ PROPS["C05"] = dict(
                 "(b) interval widening ranking fact for chains of any length; (c) termination: every path of every analysis run of the program family (symbolic constants) must finish - a diverging value would be a path that never ends and is reported as NO-VERDICT/path-too-long. " + HIST_EXPL,
     bounds=HIST_BOUNDS, outside=HIST_OUT + ["ranking argument for zones/octagons (number of finite edges) is not observable through the public API; covered only through bounded chains in histories and analysis runs"],
     assumptions=E2_ASSUME)
+
+# ---------------------------------------------------------------- C06: fixpoint engine = least solution
+C06_SHAPES = {
+    "chain": "010,001,000", "diamond": "0110,0001,0001,0000", "simple-loop": "0100,0011,0100,0000", "self-loop": "010,011,000",
+    "entry-self-loop": "11,00", "entry-loop-head": "010,101,000", "two-loops-seq": "01000,00110,01000,00001,00010",
+    "nested": "01000,00101,00010,00101,00000", "irreducible": "0110,0011,0101,0000", "unreachable-block": "0100,0010,0000,0010",
+    "no-exit": "010,001,010", "loop-exit-from-body": "0100,0010,0101,0000", "double-back-edge": "0100,0010,0101,0100",
+    "branch-in-loop": "01000,00110,00001,00001,01000",
+}
+for _k, _v in C06_SHAPES.items():
+    _r = _v.split(",")
+    assert all(len(x) == len(_r) for x in _r), _k
+
+
+def c06_jobs(tier, seed):
+    J = []
+    params = [(0, 0), (1, 1), (2, 2)] if tier == "quick" else [(w, d) for w in (0, 1, 2) for d in (0, 1, 2)]
+    for nm, sh in C06_SHAPES.items():
+        n = len(sh.split(","))
+        for (wd, di) in params:
+            J.append(Job("c06", {"shape": sh, "wd": wd, "di": di}, what="engine vs Kleene on '%s'" % nm, witnesses=1))
+        # assumption maps: on every subset of blocks (quick: three subsets)
+        subsets = [(1 << n) - 1, 2, 1 << (n - 1)] if tier == "quick" else list(range(1, 1 << n))
+        for a in subsets:
+            J.append(Job("c06", {"shape": sh, "wd": 1, "di": 1, "assume": a}, what="'%s' with assumption map %s" % (nm, bin(a)), witnesses=1))
+        # alternative start blocks (blocks inside a loop end the path: outside the property)
+        for st in range(1, n):
+            J.append(Job("c06", {"shape": sh, "wd": 1, "di": 1, "start": st}, what="'%s' started at block %d" % (nm, st), witnesses=1, allow_vacuous=True))
+    # fully symbolic adjacency
+    J.append(Job("c06", {"shape": "sym", "nv": 2, "wd": 1, "di": 1}, what="all graphs with 2 blocks (symbolic adjacency bits)"))
+    J.append(Job("c06", {"shape": "sym", "nv": 2, "wd": 0, "di": 2}, what="all graphs with 2 blocks (symbolic adjacency bits)"))
+    if tier == "thorough":
+        J.append(Job("c06", {"shape": "sym", "nv": 3, "wd": 1, "di": 1}, what="all graphs with 3 blocks (symbolic adjacency bits)", budget=3000, shards=16, shard_depth=8))
+    # clause 2: no extrapolation within the widening delay, on a real domain
+    for pr in ("loop", "selfloop", "nested", "loop2"):
+        for d in (1, 2):
+            J.append(Job("c06b", {"prog": pr, "wd": 8 if tier == "quick" else 12, "sym": "0"}, defines=("DOM=%d" % d,), what="join-only least fixpoint within the delay: %s on %s" % (pr, DOMS[d][0]), witnesses=1, budget=600))
+    return J
+
+
+PROPS["C06"] = dict(
+    jobs=c06_jobs,
+    explanation="The real interleaved_fwd_fixpoint_iterator + wto are driven through a client subclass with a finite-height value type (subsets of a 3-element state space; widening = join, narrowing = meet), "
+                "block transformers = arbitrary symbolic relations, symbolic initial value and assumption map; z3 decides result == least solution of the flow equations (Kleene iteration written as formulas) at every block. "
+                "Clause 2: interval/zones analyses of loops whose join-only iteration stabilises within the delay equal a naive round-robin join-only iteration with the same real domain operations.",
+    bounds={"quick": "14 graph shapes <= 5 blocks x (delay,descending) in {(0,0),(1,1),(2,2)}; 3 assumption subsets and every admissible alternative start block per shape; all graphs with 2 blocks via symbolic adjacency; state space of 3 concrete states",
+            "thorough": "all 9 (delay,descending) settings, all assumption subsets, all graphs with 3 blocks"},
+    outside=["graphs with more than 5 blocks (3 with symbolic adjacency)", "state spaces larger than 3 elements", "start blocks inside a loop (excluded by the property)"],
+    assumptions=E2_ASSUME)
